@@ -206,7 +206,7 @@ func c09Chain(w *W) {
 	if calibrate {
 		nclient = 1
 	}
-	tran := []string{"inproc", "sim", "tcp", "ipc", "tls+tcp"}[w.Choose(simrt.SShape, 5)]
+	tran := w.simFallback([]string{"inproc", "sim", "tcp", "ipc", "tls+tcp"}[w.Choose(simrt.SShape, 5)])
 	nmsg := 1 + w.Choose(simrt.SShape, 5)
 	w.SetShape("family", fam.name)
 	w.SetShape("devices", d)
@@ -439,7 +439,7 @@ func c09ChainTTL(w *W) {
 	fams := []c9Family{c9Families[0], c9Families[1], c9Families[5], c9Families[6]}
 	fam := fams[w.Choose(simrt.SShape, len(fams))]
 	d := 1 + w.Choose(simrt.SShape, 3)
-	tran := []string{"inproc", "sim", "tcp", "ipc"}[w.Choose(simrt.SShape, 4)]
+	tran := w.simFallback([]string{"inproc", "sim", "tcp", "ipc"}[w.Choose(simrt.SShape, 4)])
 	ttls := []int{1, 2, 3, 4, 8}
 	pick := func() int { return ttls[w.Choose(simrt.SShape, len(ttls))] }
 	w.SetShape("family", fam.name)
